@@ -568,6 +568,21 @@ def rule_len(env, shared):
                 cctx, _cbb = env.closure_ctx(nctx, cl)
                 if cctx is not None:
                     pairs.append((cl, cctx, list(getattr(cctx, "entry_facts", ()) or ())))
+        # .. and a crate function named as the mapping of `map_or` / `map` on the length (`len.map_or(Maybe, HasMore::f)`): it
+        # runs on the payload, i.e. where the length is Some
+        from terms import Ctx as _Ctx
+        for bi, t, c in hb.calls():
+            mk_ = PURE.get(callee_model_key(c))
+            if hb.blocks[bi]["cleanup"] or mk_ not in ("Option::map_or", "Option::map") or not t["args"]:
+                continue
+            recv_ = ev.operand(hctx, t["args"][0])
+            if "try_get_len" not in fmt(recv_):
+                continue
+            fn_ = unref(ev.operand(hctx, t["args"][-1]))
+            fb_ = ev.fn_by_path(fn_[1]) if fn_[0] == "fnref" else None
+            if fb_ is not None and fb_.arg_count == 1:
+                fctx_ = _Ctx(fb_, params=(ev.payload(hctx, recv_),), self_adt=F.impl_self_adt(fb_), stack=(hb.def_, fb_.def_), depth=1)
+                pairs.append((fb_, fctx_, []))
         for (hb2, ctx, entry) in pairs:
             for bi, blk in enumerate(hb2.blocks):
                 for s in blk["stmts"]:
@@ -580,7 +595,7 @@ def rule_len(env, shared):
                             good["Maybe"] = any(f[0] == "is_some" and f[2] is False and "try_get_len" in fmt(f[1]) for f in fs) \
                                 or (mapor_default is not None and mapor_default == agg)
                         elif vn == "No":
-                            good["No"] = any(f[0] == "eq" and len(f) == 3 and f[2] == ("int", 0) and "try_get_len" in fmt(f[1])
+                            good["No"] = any(f[0] in ("eq", "le") and len(f) == 3 and f[2] == ("int", 0) and "try_get_len" in fmt(f[1])
                                              for f in fs)
                         elif vn == "Yes":
                             v = unref(ev.operand(ctx, s["rv"]["ops"][0]))
